@@ -5,6 +5,7 @@
 //!   wsim plan <ID> <seed>                        print the plan a seed generates
 mod child;
 mod conc;
+mod corrupt;
 mod crash;
 mod gen;
 mod oracle;
